@@ -4,17 +4,17 @@ _SIMD = "SIMD / assembly back ends (dolbeau AVX2/SSSE3 ChaCha20, xmm6 / xmm6int 
 NOT_COVERED = {
     "C01": ["AES-256-GCM", "AEGIS-128L / AEGIS-256 (soft back end attempted: symbolic execution does not finish)", _SIMD, "equality of the primitives with their specifications is C03/C04 (assumed here)", "secretbox byte copies are bounded to 80-byte messages"],
     "C02": ["AES-256-GCM, AEGIS", "that changing a bit changes the MAC (cryptographic strength of Poly1305 / HMAC)", _SIMD],
-    "C03": [_SIMD, "streaming over arbitrary lengths: proved per constant length (1, 63, 64 quick; 33, 65, 128, 129 thorough) and per block from every state; induction over the block count is a paper lemma", "salsa2012 / salsa208 stream wrappers"],
+    "C03": [_SIMD, "streaming over arbitrary lengths: proved per constant length (1, 63, 64 quick; 33, 65, 128, 129 thorough, the multi-block ones one output block per obligation) and per block from every state; induction over the block count is a paper lemma", "salsa2012 / salsa208 stream wrappers"],
     "C04": ["Poly1305 product h*r mod 2^130-5 (non-linear)", "SHA-256 / SHA-512 / BLAKE2b compression functions and their update/final buffering", _SIMD, "donna32 variant"],
-    "C05": ["the Montgomery ladder's field arithmetic (mul, sq, invert, mul32), ge25519_scalarmult_base, the RFC 7748 value itself", "sandy2x AVX assembly and its C glue", "25.5-bit limb field representation"],
-    "C06": ["all Edwards25519 group and scalar arithmetic, SHA-512: RFC 8032 test-vector equality and 'every produced signature verifies' are not decided", "pre-hashed multi-part wrappers (sign_ed25519.c), pk_to_curve25519"],
-    "C07": ["group / scalar arithmetic exactness (ge25519_*, sc25519_mul/reduce/invert, Elligator, Ristretto encode/decode)", "byte equality of expand_message_xmd's output with b_1 || b_2 ..", "from_string / from_string_ro wrappers"],
+    "C05": ["the Montgomery ladder's non-linear field arithmetic (fe25519_mul, sq, invert, mul32: the SAT back end does not finish; add / sub / neg / cswap / cmov / encode / decode ARE decided), ge25519_scalarmult_base, the RFC 7748 value itself", "sandy2x AVX assembly and its C glue", "25.5-bit limb field representation"],
+    "C06": ["Edwards25519 group arithmetic, SHA-512, and scalar arithmetic mod L for general operands (decided only: sc25519_muladd with a in {0,1}, sc25519_reduce for s < 2^256): RFC 8032 test-vector equality and 'every produced signature verifies' are not decided", "pk_to_curve25519", "sign / sign_open overlap is bounded: messages <= 80 bytes, 8 relative offsets each"],
+    "C07": ["group / scalar arithmetic exactness (ge25519_*, sc25519_mul / invert, sc25519_reduce for s >= 2^256, sc25519_muladd for a > 1, fe25519_mul / sq, Elligator, Ristretto encode/decode)", "byte equality of expand_message_xmd's output with b_1 || b_2 ..", "from_string / from_string_ro wrappers"],
     "C08": ["equality of Argon2i / Argon2id / scrypt outputs with RFC 9106 / RFC 7914 on any back end", "argon2_encode_string, the scrypt $7$ codec, escrypt_r", "raw API upper output bound (needs a 4 GiB buffer)"],
     "C09": ["the induction over arbitrary interleavings of pushes and pulls (paper lemma over the per-call contracts)"],
     "C10": ["byte-identical outputs across SIMD / assembly / 25.5-bit-limb implementations (the central clause)", _SIMD],
     "C11": ["memory-address independence", "the compiled binary (only the goto program is analysed)", "?: / && / || expressions", "whole scalar multiplications, signing, AES-NI, sandy2x, SIMD back ends"],
     "C12": ["public functions not listed under functions_under_contract", _SIMD, "alignment faults (not modelled by CBMC)"],
-    "C13": ["box easy/detached (forward to secretbox), sign / sign_open with overlapping buffers", "AEGIS, AES-GCM", "vectorised stream cores (stride-wise in-place safety)", "secretbox overlap is bounded: lengths <= 80, 13 relative offsets"],
+    "C13": ["box easy/detached (forward to secretbox)", "AEGIS, AES-GCM", "vectorised stream cores (stride-wise in-place safety)", "secretbox / sign / sign_open overlap is bounded: lengths <= 80, 13 resp. 8 relative offsets"],
     "C14": ["x86-64 adc/sbb assembly fast paths of sodium_increment/add (len 8, 12, 24) and sodium_sub (len 64)", "explicit_bzero / pmovmskb128 are assumed models"],
     "C15": ["functional exactness of the decoders beyond 8-character texts (memory safety / frame / capacity are unbounded)"],
     "C16": ["sodium_pad for block sizes > 130 that are not powers of two (bounded only)", "unpad completeness for block sizes > 136 (quick) / 256 (thorough)"],
